@@ -118,6 +118,8 @@ Record Specs2 (f : nat) : Prop := {
       safe (requeue_conn_queries cf f n co st) s (tpost RC RF);
   tp_check_cleanup : forall s RC RF, Inv s -> TokInv s RC RF -> safe (check_cleanup cf f) s (tpost RC RF);
   tp_cleanup_loop : forall n s RC RF, Inv s -> TokInv s RC RF -> safe (cleanup_loop cf f n) s (tpost RC RF);
+  tp_set_servers : forall s RC RF, Inv s -> TokInv s RC RF -> safe (set_servers cf f) s (tpost RC RF);
+  tp_set_servers_loop : forall n s RC RF, Inv s -> TokInv s RC RF -> safe (set_servers_loop cf f n) s (tpost RC RF);
   tp_cancel : forall s RC RF, Inv s -> TokInv s RC RF -> safe (cancel cf f) s (tpost RC RF);
   tp_cancel_loop : forall n s RC RF, Inv s -> TokInv s RC RF -> safe (cancel_loop_fixed cf f n) s (tpost RC RF);
   tp_search_int : forall k names s RC RF, Inv s -> Own s (cobjs k) -> GivenOk s (kbot k) -> TokInv s (ctoks k ++ RC) RF ->
@@ -239,8 +241,8 @@ Proof.
   apply safe_bind. eapply safe_of_run; [exact E1|].
   apply safe_bind. eapply safe_get_query; [exact (inv_heap _ _ I1)|exact Hq1|].
   apply safe_bind. simpl.
-  eapply safe_mono; [apply safe_both; [apply (sp_invoke _ _ (S1 f) (q_cb q) r s1 I1 O1 Hg1)
-                                      |apply (tp_invoke _ IH (q_cb q) r s1 RC RF I1 O1 Hg1 T1)]|].
+  eapply safe_mono; [apply safe_both; [apply (sp_invoke _ _ (S1 f) (q_cb q) _ s1 I1 O1 Hg1)
+                                      |apply (tp_invoke _ IH (q_cb q) _ s1 RC RF I1 O1 Hg1 T1)]|].
   intros [] s2 [[I2 F2] T2].
   pose proof (fr_cell _ _ _ _ F2 _ _ Hq1 Hr1 (opaque_not_query _ _ _ _ O1 Hq1)) as [Hq2 Hr2].
   unfold release_query. eapply safe_free; [exact (inv_heap _ _ I2)|exact Hq2|].
@@ -283,7 +285,8 @@ Proof.
   pose proof (tok_store_query None s1 qo _ qb RC RF I1 Hq1 Eb1 T1) as T2.
   set (s2 := store_st qo (CQuery qb) s1) in *.
   assert (Hl2 : In qo (linked s2)) by (rewrite Ell2; exact Hl1).
-  destruct (Nat.ltb (q_try qb) (cf_max_tries cf) && negb (q_noretry qb)).
+  apply safe_bind. apply safe_get.
+  destruct (Nat.ltb (q_try qb) (st_nservers s2 * cf_tries cf) && negb (q_noretry qb)).
   - destruct df.
     + apply safe_ret. exact T2.
     + apply (tp_send_query _ IH); auto.
@@ -390,6 +393,43 @@ Proof.
   apply (tp_cleanup_loop _ IH); [apply (inv_core _ _ _ E1); auto|apply tokinv_set_tape; exact T].
 Qed.
 
+Lemma set_servers_loop_tstep f : Specs2 f -> forall n s RC RF, Inv s -> TokInv s RC RF ->
+  safe (set_servers_loop cf (S f) n) s (tpost RC RF).
+Proof.
+  intros IH n s RC RF I T. destruct n as [|n']; simpl; [apply safe_fail|].
+  apply safe_bind. apply safe_get.
+  assert (G : forall co c, cell_of s co = Some (CConn c) ->
+            safe (close_connection cf f co ARES_SUCCESS;; set_servers_loop cf f n') s (tpost RC RF)).
+  { intros co c Hc. apply safe_bind.
+    eapply safe_mono; [apply safe_both; [apply (sp_close_connection _ _ (S1 f) co ARES_SUCCESS s c I Hc)
+                                        |apply (tp_close_connection _ IH co ARES_SUCCESS s c RC RF I Hc T)]|].
+    intros [] s1 [[I1 _] T1]. apply (tp_set_servers_loop _ IH); auto. }
+  destruct (close_victim (st_tape s)) as [[|sock|qid]|]; [| | |apply safe_fail].
+  - apply safe_bind. apply safe_pop. intros e rest Et. apply safe_ret. apply tokinv_set_tape. exact T.
+  - destruct (find_conn_by_sock_ok _ s sock I) as [r [E1 Hr]].
+    apply safe_bind. eapply safe_of_run; [exact E1|].
+    destruct r as [co|]; [|apply safe_fail].
+    destruct (Hr _ eq_refl) as [Hin [c [Hc Hncl]]]. apply (G co c); auto.
+  - destruct (lookup qid (st_byqid s)) as [qo|] eqn:Lk; [|apply safe_fail].
+    destruct (inv_byqid _ _ I _ _ Lk) as [Hl _]. destruct (inv_query _ _ I _ Hl) as [q Hq].
+    apply safe_bind. eapply safe_get_query; [exact (inv_heap _ _ I)|exact Hq|].
+    destruct (q_conn q) as [co|]; [|apply safe_fail].
+    destruct (memb co (st_conns s)) eqn:Mb; [|apply safe_fail].
+    apply memb_In in Mb. destruct (inv_conns _ _ I) as [_ Hcc]. destruct (Hcc _ Mb) as [c [Hc _]].
+    apply (G co c); auto.
+Qed.
+
+Lemma set_servers_tstep f : Specs2 f -> forall s RC RF, Inv s -> TokInv s RC RF -> safe (set_servers cf (S f)) s (tpost RC RF).
+Proof.
+  intros IH s RC RF I T. simpl. apply safe_bind. apply safe_pop. intros e rest Et.
+  destruct e; try apply safe_fail.
+  apply safe_bind. apply safe_modify.
+  set (s1 := set_nservers n (set_tape rest s)).
+  assert (E1 : core_eq s s1) by (eapply core_eq_trans; [apply core_eq_set_tape|apply core_eq_set_nservers]).
+  apply (tp_set_servers_loop _ IH); [apply (inv_core _ _ _ E1); auto|].
+  apply (tokinv_same s); auto.
+Qed.
+
 Lemma cancel_loop_tstep f : Specs2 f -> forall n s RC RF, Inv s -> TokInv s RC RF ->
   safe (cancel_loop_fixed cf (S f) n) s (tpost RC RF).
 Proof.
@@ -409,6 +449,21 @@ Proof.
   intros E. unfold held. f_equal. unfold qheld. change (linked (set_lists ls s)) with (concat ls). rewrite E. reflexivity.
 Qed.
 
+Lemma mark_cancelled_tok l : forall s RC RF, Inv s -> incl l (linked s) -> TokInv s RC RF ->
+  safe (mark_cancelled l) s (fun _ s' => TokInv s' RC RF).
+Proof.
+  induction l as [|qo r IHr]; intros s RC RF I Hl T; simpl.
+  - apply safe_ret. exact T.
+  - assert (Hq0 : In qo (linked s)) by (apply Hl; left; auto).
+    destruct (inv_query _ _ I _ Hq0) as [q Hq].
+    apply safe_bind. apply safe_bind. eapply safe_get_query; [exact (inv_heap _ _ I)|exact Hq|].
+    eapply safe_store; [exact (inv_heap _ _ I)|exact Hq|].
+    destruct (store_query_misc_ok None s qo q (set_q_cancelled true q) I Hq eq_refl eq_refl eq_refl) as [I1 [F1 [_ [Ell1 _]]]].
+    apply (IHr _ RC RF I1).
+    + intros y Hy. rewrite Ell1. apply Hl. right. exact Hy.
+    + apply (tok_store_query None s qo q); auto.
+Qed.
+
 Lemma cancel_tstep f : Specs2 f -> forall s RC RF, Inv s -> TokInv s RC RF -> safe (cancel cf (S f)) s (tpost RC RF).
 Proof.
   intros IH s RC RF I T. rewrite cancel_unfold. apply safe_bind. apply safe_get.
@@ -422,9 +477,14 @@ Proof.
     destruct (lists_same_linked None s ([] :: (q0 :: l0) :: rest) Ec I) as [I1 [F1 _]].
     assert (T1 : TokInv (set_lists ([] :: (q0 :: l0) :: rest) s) RC RF).
     { apply (tokinv_same s); [reflexivity|reflexivity|apply held_set_lists; exact Ec|exact T]. }
-    rewrite (fx_unlink_true cf Hfix).
+    rewrite (fx_unlink_true cf Hfix), (fx_cancelmark_true cf Hfix).
     apply safe_bind.
-    eapply safe_mono; [apply safe_both; [apply (sp_cancel_loop _ _ (S1 f) f _ I1)|apply (tp_cancel_loop _ IH f _ RC RF I1 T1)]|].
+    eapply safe_mono; [apply safe_both; [apply (mark_cancelled_ok (q0 :: l0) _ I1)|apply (mark_cancelled_tok (q0 :: l0) _ RC RF I1)]|]; auto.
+    { intros y Hy. unfold linked. simpl. destruct Hy as [->|Hy]; [left; auto|right; apply in_or_app; left; exact Hy]. }
+    { intros y Hy. unfold linked. simpl. destruct Hy as [->|Hy]; [left; auto|right; apply in_or_app; left; exact Hy]. }
+    intros [] sm [[Im _] Tm].
+    apply safe_bind.
+    eapply safe_mono; [apply safe_both; [apply (sp_cancel_loop _ _ (S1 f) f _ Im)|apply (tp_cancel_loop _ IH f _ RC RF Im Tm)]|].
     intros [] s2 [[I2 [F2 Hsh]] T2].
     apply safe_modify.
     set (ls2 := match st_lists s2 with a :: _ :: r => a :: r | x => x end).
@@ -556,6 +616,10 @@ Proof.
   intros IH qo s RC RF I Hl T. simpl.
   destruct (inv_query _ _ I _ Hl) as [q Hq].
   apply safe_bind. eapply safe_get_query; [exact (inv_heap _ _ I)|exact Hq|].
+  apply safe_bind. apply safe_get.
+  destruct (Nat.eqb (st_nservers s) 0).
+  { apply safe_bind. eapply safe_mono; [apply (tp_end_query _ IH qo _ _ s RC RF (inv_weaken _ _ I) Hl T)|].
+    intros [] s2 T2. apply safe_ret. exact T2. }
   apply safe_bind. apply safe_peek.
   assert (Dflt : safe (send_query_write cf f qo false) s (tpost RC RF)) by (apply (tp_send_query_write _ IH); auto).
   destruct (hd_error (st_tape s)) as [e|]; [|exact Dflt].
@@ -620,7 +684,7 @@ Proof.
                                      match e0 with Some (TN _) => let! _ := pop in ret tt | _ => ret tt end
                                 else ret tt);;
                                (let! qo := alloc (CQuery {| q_qid := qid; q_cb := k; q_conn := None; q_try := 0;
-                                                           q_noretry := pr; q_tcp := false; q_err := ARES_SUCCESS |}) in
+                                                           q_noretry := pr; q_tcp := false; q_err := ARES_SUCCESS; q_cancelled := false |}) in
                                 link_all qo;;
                                 modify (fun s0 => set_byqid ((qid, qo) :: st_byqid s0) s0);;
                                 write_qid qd qid;;
@@ -648,7 +712,7 @@ Proof.
         intros [] s4 T4. apply safe_ret. exact T4.
       + assert (D : forall l4,
                   safe (let! qo := alloc (CQuery {| q_qid := qid; q_cb := k; q_conn := None; q_try := 0;
-                                                    q_noretry := pr; q_tcp := false; q_err := ARES_SUCCESS |}) in
+                                                    q_noretry := pr; q_tcp := false; q_err := ARES_SUCCESS; q_cancelled := false |}) in
                         link_all qo;;
                         modify (fun s0 => set_byqid ((qid, qo) :: st_byqid s0) s0);;
                         write_qid qd qid;;
@@ -660,7 +724,7 @@ Proof.
           assert (O4 : Own s4 (cobjs k)) by (apply (own_core _ _ _ E4); auto).
           assert (Hn4 : GivenOk s4 (kbot k)) by (apply (given_core _ _ _ E4); auto).
           assert (T4 : TokInv s4 (ctoks k ++ RC) RF) by (apply tokinv_set_tape; exact T).
-          set (q0 := {| q_qid := qid; q_cb := k; q_conn := None; q_try := 0; q_noretry := pr; q_tcp := false; q_err := ARES_SUCCESS |}).
+          set (q0 := {| q_qid := qid; q_cb := k; q_conn := None; q_try := 0; q_noretry := pr; q_tcp := false; q_err := ARES_SUCCESS; q_cancelled := false |}).
           destruct (new_query_ok s4 k qid q0 I4 O4 Hn4 Lk1 eq_refl eq_refl eq_refl) as [I5 [F5 [Hl5 [Hq5 _]]]].
           pose proof (tokinv_new_query s4 k qid q0 RC RF I4 O4 Hn4 Lk1 eq_refl eq_refl eq_refl T4) as T5.
           apply safe_bind. apply safe_alloc.
@@ -682,6 +746,12 @@ Proof.
           destruct (hd_error (st_tape s3)) as [e0|]; [|apply safe_ret; apply (D rest)].
           destruct e0; try (apply safe_ret; apply (D rest)).
           apply safe_bind. apply safe_pop. intros e1 rest1 Et1. apply safe_ret. apply (D rest1). }
+  apply safe_bind. apply safe_get.
+  destruct (Nat.eqb (st_nservers s1) 0).
+  { apply safe_bind.
+    eapply safe_mono; [apply (tp_invoke _ IH k _ s1 RC RF); [apply (inv_core _ _ _ E1); auto|apply (own_core _ _ _ E1); auto
+                                                            |apply (given_core _ _ _ E1); auto|apply tokinv_set_tape; exact T]|].
+    intros [] s3 T3. apply safe_ret. exact T3. }
   destruct pr.
   - apply safe_bind. apply safe_ret. apply (G None l1).
   - apply safe_bind. apply safe_bind. apply safe_pop. intros e rest Et. destruct e; try apply safe_fail.
@@ -913,17 +983,20 @@ Proof.
     assert (I2 : Inv s2) by (apply (ce_inv _ _ _ E2); auto).
     assert (T2 : TokInv s2 (ctoks (h_cb h) ++ RC) RF) by (apply tokinv_set_tape; exact T1).
     pose proof (hown_core _ _ _ _ E2 HO1) as HO2. pose proof HO2 as [Hc2 _].
-    apply safe_bind. eapply safe_get_host; [exact (inv_heap _ _ I2)|exact Hc2|].
+    remember (h_nomem h1 || zeqb (r_status r) ARES_ENOMEM || zeqb ais ARES_ENOMEM) as nm eqn:Enm.
+    apply safe_bind. eapply safe_get_host; [exact (inv_heap _ _ I2)|exact Hc2|]. rewrite <- Enm.
+    match goal with |- context [h_set_ai nodes v4 nm ?x h1] => remember x as nd eqn:End; clear End end.
     apply safe_bind. eapply safe_store; [exact (inv_heap _ _ I2)|exact Hc2|].
-    destruct (hown_store s2 o h1 (h_set_ai nodes v4 h1) I2 HO2 eq_refl Hz1) as [I3 [F3 HO3]].
-    assert (T3 : TokInv (store_st o (CHost (h_set_ai nodes v4 h1)) s2) (ctoks (h_cb h) ++ RC) RF).
+    destruct (hown_store s2 o h1 (h_set_ai nodes v4 nm nd h1) I2 HO2 eq_refl Hz1) as [I3 [F3 HO3]].
+    assert (T3 : TokInv (store_st o (CHost (h_set_ai nodes v4 nm nd h1)) s2) (ctoks (h_cb h) ++ RC) RF).
     { apply (tokinv_host_excl None s2 o h1); auto. }
-    set (h3 := h_set_ai nodes v4 h1) in *. set (s3 := store_st o (CHost h3) s2) in *.
+    set (h3 := h_set_ai nodes v4 nm nd h1) in *. set (s3 := store_st o (CHost h3) s2) in *.
     simpl negb. rewrite andb_false_r. apply safe_bind. apply safe_ret.
     assert (FinE : forall stx, safe (end_hquery cf f o stx) s3 (tpost RC RF)).
     { intros stx. apply (tp_end_hquery _ IH o stx s3 h3 RC RF I3 HO3). exact T3. }
     pose proof HO3 as [Hc3 [Hz3 _]].
     destruct (zeqb (r_status r) ARES_EDESTRUCTION || zeqb (r_status r) ARES_ECANCELLED); [apply FinE|].
+    destruct nm; [apply FinE|].
     destruct (negb (zeqb ais ARES_SUCCESS) && negb (zeqb ais ARES_ENODATA)).
     { destruct (zeqb ais ARES_EBADRESP && nodes); apply FinE. }
     destruct nodes; [apply FinE|].
@@ -951,14 +1024,16 @@ Proof.
     assert (T2 : TokInv s2 RC RF) by (apply tokinv_set_tape; exact T1).
     assert (Hs2 : shared_at s2 o = Some h1) by (rewrite (ce_shared _ _ _ E2); exact Hs1).
     destruct (shared_host _ _ _ Hs2) as [Hc2 _].
-    apply safe_bind. eapply safe_get_host; [exact (inv_heap _ _ I2)|exact Hc2|].
+    remember (h_nomem h1 || zeqb (r_status r) ARES_ENOMEM || zeqb ais ARES_ENOMEM) as nm eqn:Enm.
+    apply safe_bind. eapply safe_get_host; [exact (inv_heap _ _ I2)|exact Hc2|]. rewrite <- Enm.
+    match goal with |- context [h_set_ai nodes v4 nm ?x h1] => remember x as nd eqn:End; clear End end.
     apply safe_bind. eapply safe_store; [exact (inv_heap _ _ I2)|exact Hc2|].
-    destruct (store_host_shared_ok None s2 o h1 (h_set_ai nodes v4 h1) (dg None) I2 Hs2 eq_refl Hp1) as [I3 [F3 _]].
+    destruct (store_host_shared_ok None s2 o h1 (h_set_ai nodes v4 nm nd h1) (dg None) I2 Hs2 eq_refl Hp1) as [I3 [F3 _]].
     { simpl. lia. } { intros; reflexivity. }
     { simpl. pose proof (hi_cnt _ (inv_hosts _ _ I2) _ _ Hs2). lia. }
-    assert (T3 : TokInv (store_st o (CHost (h_set_ai nodes v4 h1)) s2) RC RF).
+    assert (T3 : TokInv (store_st o (CHost (h_set_ai nodes v4 nm nd h1)) s2) RC RF).
     { apply (tokinv_host_shared None s2 o h1); auto. }
-    set (s3 := store_st o (CHost (h_set_ai nodes v4 h1)) s2) in *.
+    set (s3 := store_st o (CHost (h_set_ai nodes v4 nm nd h1)) s2) in *.
     simpl negb.
     apply safe_bind.
     + match goal with |- context [if ?b then _ else ret tt] => destruct b end.
@@ -1076,6 +1151,11 @@ Proof.
     simpl. apply (tok_alloc None); auto; [reflexivity|]. apply (tok_alloc None); auto. exact Logic.I.
   - (* ACancel *)
     apply (tp_cancel _ IH); auto.
+  - (* ASetServers *)
+    apply safe_bind. apply safe_emit.
+    assert (E1 : core_eq s (set_trace (EvSetServers :: st_trace s) s)) by apply core_eq_set_trace.
+    apply (tp_set_servers _ IH); [apply (inv_core _ _ _ E1); auto|].
+    apply tokinv_emit_other; try (intros; discriminate); try discriminate. exact T.
   - (* ANop *)
     apply safe_ret. exact T.
 Qed.
@@ -1098,6 +1178,8 @@ Proof.
   - apply requeue_conn_queries_tstep; auto.
   - apply check_cleanup_tstep; auto.
   - apply cleanup_loop_tstep; auto.
+  - apply set_servers_tstep; auto.
+  - apply set_servers_loop_tstep; auto.
   - apply cancel_tstep; auto.
   - apply cancel_loop_tstep; auto.
   - apply search_int_tstep; auto.
@@ -1668,7 +1750,7 @@ Qed.
 
 End Top.
 
-Lemma init_tokinv RF : NoDup RF -> TokInv init_state [] RF.
+Lemma init_tokinv cf RF : NoDup RF -> TokInv (init_state cf) [] RF.
 Proof.
   intros H. constructor.
   - simpl. exact H.
@@ -1728,10 +1810,10 @@ Proof.
   intros Hfix Hn Hrun. unfold run in Hrun.
   assert (S : safe (let! destroyed := run_from cf fuel h in
                     (if destroyed then ret tt else step cf fuel IDestroy final);; emit EvEnd)
-                   init_state (fun _ s => let tr := rev (st_trace s) in
+                   (init_state cf) (fun _ s => let tr := rev (st_trace s) in
                                           at_most_once tr /\ none_after_destroy tr /\ complete_at_destroy tr)).
   { apply safe_bind.
-    eapply safe_mono; [apply (run_from_tok cf Hfix fuel h init_state [] init_inv)|].
+    eapply safe_mono; [apply (run_from_tok cf Hfix fuel h (init_state cf) [] (init_inv cf))|].
     - rewrite app_nil_r. apply init_tokinv. exact Hn.
     - intros d s1 H1. apply safe_bind. destruct d.
       + apply safe_ret. apply safe_emit. apply (done_final s1 H1).
@@ -1740,7 +1822,7 @@ Proof.
         intros [] s2 D2. apply safe_emit. apply (done_final s2 D2). }
   unfold safe in S.
   destruct ((let! destroyed := run_from cf fuel h in
-             (if destroyed then ret tt else step cf fuel IDestroy final);; emit EvEnd) init_state)
+             (if destroyed then ret tt else step cf fuel IDestroy final);; emit EvEnd) (init_state cf))
     as [[a s']|e|k']; try discriminate.
   inversion Hrun; subst. exact S.
 Qed.
@@ -1749,12 +1831,12 @@ Qed.
    requested so far has had exactly as many callbacks as requests, and never more on the way *)
 Theorem run_from_quiescent cf fuel h s :
   cf_fix cf = all_fixed -> NoDup (hist_toks h) ->
-  run_from cf fuel h init_state = Ok (false, s) -> linked s = [] ->
+  run_from cf fuel h (init_state cf) = Ok (false, s) -> linked s = [] ->
   (forall t, count_cb (st_trace s) t = count_req (st_trace s) t) /\ at_most_once (rev (st_trace s)).
 Proof.
   intros Hfix Hn Hrun El.
-  pose proof (run_from_tok cf Hfix fuel h init_state [] init_inv) as S.
-  rewrite app_nil_r in S. specialize (S (init_tokinv _ Hn)).
+  pose proof (run_from_tok cf Hfix fuel h (init_state cf) [] (init_inv cf)) as S.
+  rewrite app_nil_r in S. specialize (S (init_tokinv cf _ Hn)).
   unfold safe in S. rewrite Hrun in S. simpl in S. destruct S as [I [H1 H2 H3 H4 H5]].
   split; [|exact H3].
   intros t. rewrite count_perm_cb, count_perm_req.
